@@ -172,7 +172,7 @@ HeadersBase::KV* HeadersBase::kv_add(KV kv) {
 
 int HeadersBase::parse() {
     Parser p({m_buf, m_buf_size});
-    while(p[0] != '\r') {
+    while(!p.is_done() && p[0] != '\r') {
         auto k = p.extract_until_char(':');
         p.skip_chars(' ', true);
         auto v = p.extract_until_char('\r');
@@ -180,6 +180,8 @@ int HeadersBase::parse() {
         if (kv_add({k, v}) == nullptr)
             LOG_ERROR_RETURN(0, -1, "add kv failed");
     }
+    if (p.is_done())
+        LOG_ERROR_RETURN(EINVAL, -1, "header block ends without an empty line");
     std::sort(kv_begin(), kv_end(), HA(this));
     return 0;
 }
